@@ -106,7 +106,7 @@ fn probe_all(ctx: &Ctx, rep: &mut Report, w: &mut W, rng: &mut Rng) -> bool {
 }
 
 pub fn run(ctx: &Ctx, rep: &mut Report) {
-    let retentions: Vec<u64> = if ctx.thorough() { vec![0, 1, 2, 3, 4, 10, 1 << 40] } else { vec![0, 1, 2] };
+    let retentions: Vec<u64> = if ctx.thorough() { vec![0, 1, 2, 3, 4, 10, 1 << 40, u64::MAX - 2, u64::MAX] } else { vec![0, 1, 2, u64::MAX - 1, u64::MAX] };
     let len: u32 = if ctx.thorough() { 7 } else { 4 };
     let seqs = 3u64.pow(len);
     let total = retentions.len() as u64 * 3 * seqs;
